@@ -101,17 +101,25 @@ def run(ctx):
     progs = []
     for i in range(3 if ctx.quick else 20):
         items, pool = bases(i)
+        # arrays around the tuple limit (64): by name a tuple up to the limit and `Array<T>` beyond it — inlined, `as`-typed and inside
+        # containers exactly the same (serde has no impls beyond 32 elements: these siblings only derive TS)
+        pool = pool + [({"k": "arr", "t": P("u8"), "n": 64}, False), ({"k": "arr", "t": OPT(P("bool")), "n": [63, 65, 64][i % 3]}, False),
+                       ({"k": "arr", "t": N(items[0]["name"]), "n": [2, 1, 3][i % 3]}, False)]
+        big = lambda F: F.get("k") == "arr" and F["n"] > 32
         sibs, meta = [], []
         for j, (F, objlike) in enumerate(pool):
-            ss, FT = siblings(i, j, F, objlike, rng)
+            ss, FT = siblings(i, j, F, objlike, rng if not big(F) else random.Random(0))    # (no pointer wrapper around the big arrays)
+            if big(F):
+                for s_ in ss:
+                    s_["serde"] = False
             sibs += ss
         allitems = items + [{k: v for k, v in s.items() if not k.startswith("_")} for s in sibs]
         imap = {x["name"]: x for x in allitems}
         g = gen_corpus.Gen(rng)
-        probes = [{"ty": t, "values": [g.val(t, imap) for _ in range(2)]} for t, _ in pool]
+        probes = [{"ty": t, "values": [g.val(t, imap) for _ in range(2)] if not big(t) else []} for t, _ in pool]
         for s in sibs:
             t = N(s["name"])
-            probes.append({"ty": t, "values": g.all_variant_values(t, imap)[:3], "_tag": s["_tag"], "_group": s["name"].rsplit("_", 1)[0]})
+            probes.append({"ty": t, "values": g.all_variant_values(t, imap)[:3] if s.get("serde", True) else [], "_tag": s["_tag"], "_group": s["name"].rsplit("_", 1)[0]})
         progs.append({"items": allitems, "probes": probes})
     c = corpus.get(ctx)     # shared char table etc.
     clean = [{"items": p["items"], "probes": [{k: v for k, v in pr.items() if not k.startswith("_")} for pr in p["probes"]]} for p in progs]
